@@ -193,7 +193,16 @@ def skeleton_part(run, tier):
                 if t_:
                     sqls.append((t_, 'derivation of %s with alternatives %s' % (str(p).split('  [')[0], picks)))
                     n_alt += 1
+        # ... and every (parent production, child production) pair of the grammar
+        n_pair = 0
+        for i, p in enumerate(dv.prods):
+            for j, cp, tree in dv.pair_trees(p):
+                t_ = c02u2.node_sentence(d, tree, c02u2.VOCAB[0])
+                if t_:
+                    sqls.append((t_, 'production pair %s <- %s' % (str(p).split('  [')[0], str(cp).split('  [')[0])))
+                    n_pair += 1
         run.extra['alternative_derivation_sentences_%s' % d] = n_alt
+        run.extra['production_pair_sentences_%s' % d] = n_pair
         seen, n_ok, n_skip, n_bad, prods = set(), 0, 0, 0, set()
         for sql, origin in sqls:
             if sql in seen:
@@ -247,6 +256,16 @@ def skeleton_part(run, tier):
                     key = 'roundtrip:printer:%s:CreateTable:only-primary-key-prints-empty-column-list' % d
                 elif s1 is not None and type(a).__name__ == 'CreateDatabase' and re.match(r'CREATE (OR REPLACE )?PROJECT', sql.upper()) and re.match(r'CREATE (OR REPLACE )?DATABASE', s1.upper()):
                     key = 'roundtrip:printer:mindsdb:CreateDatabase:project-printed-as-database'
+                elif s1 is not None and re.search(r'\(\s*\(\s*SELECT\b[^()]*\b(UNION|EXCEPT|INTERSECT)\b', sql) and re.search(r'(UNION|EXCEPT|INTERSECT)', s1) \
+                        and problem.startswith('re-parse raises'):
+                    # a set operation written in its own parentheses inside the parentheses of a subquery position: the enclosing printer
+                    # writes one pair only and the text no longer parses
+                    key = 'roundtrip:printer:%s:%s:parenthesised-set-operation-as-subquery' % (d, type(a).__name__)
+                elif type(a).__name__ == 'CreateTable' and s1 is not None and re.search(r'(UNION|EXCEPT|INTERSECT)', s1) and problem.startswith('re-parse raises'):
+                    key = 'roundtrip:printer:%s:CreateTable:parenthesised-set-operation-as-subquery' % d
+                elif type(a).__name__ == 'Show':
+                    # the Show printer (one get_string for ~40 SHOW forms): category words, names and IN / FROM / LIKE / WHERE modifiers
+                    key = 'roundtrip:printer:%s:Show:%s' % (d, problem.split(':')[0].replace(' ', '-'))
                 else:
                     key = 'roundtrip:%s:%s' % (d, ' '.join(sql.split())[:120])
                 run.counterexample(key, '%s: %r prints as %r: %s' % (d, ' '.join(sql.split())[:150], s1, problem),
